@@ -117,9 +117,17 @@ def run(ctx):
         if c:
             samples.append({"job": lbl, "case": c[:12]})
     ctx.cov["samples"] = samples
-    for lbl, cmd, rc, tail in r["failed_jobs"]:
-        ctx.violation("correspondence job failed (harness or driver crashed): " + lbl, {"cmd": cmd, "rc": rc, "tail": tail}, no_input=True)
     spec_mm = [m for m in r["mismatch_lines"] if "kind=spec" in m[2]]
+    # a job that stopped early AFTER the property oracle had flagged one of its cases is reported
+    # through that case (concrete input) below, not as an inputless crash
+    flagged = {m[0] for m in spec_mm}
+    crashed_flagged = [f for f in r["failed_jobs"] if f[0] in flagged]
+    for lbl, cmd, rc, tail in r["failed_jobs"]:
+        if lbl in flagged:
+            continue
+        ctx.violation("correspondence job failed (harness or driver crashed): " + lbl, {"cmd": cmd, "rc": rc, "tail": tail}, no_input=True)
+    if crashed_flagged:
+        ctx.notes.append("%d jobs stopped early after a property-oracle mismatch of theirs: %s" % (len(crashed_flagged), ", ".join(f[0] for f in crashed_flagged[:40])))
     model_mm = [m for m in r["mismatch_lines"] if "kind=model" in m[2]]
     reported = set()
     n_viol_before = len(ctx.violations)
@@ -137,6 +145,11 @@ def run(ctx):
                        "how_to_rerun": cmd + " | " + driver}, key=key)
         if len(ctx.violations) >= 5:
             break
+    if crashed_flagged and len(ctx.violations) == n_viol_before:
+        # none of their mismatches became a reported violation (all keyed as known findings)
+        for lbl, cmd, rc, tail in crashed_flagged:
+            ctx.violation("correspondence job failed (harness or driver crashed): " + lbl, {"cmd": cmd, "rc": rc, "tail": tail}, no_input=True)
+        n_viol_before = len(ctx.violations)
     hidden = r["mismatches_spec"] - len(spec_mm) - r["extra"].get("spec_repeats_suppressed", 0)
     if hidden > 0 and len(r["mismatch_lines"]) >= 200:
         msg = "%d further property-oracle mismatches were not captured (the pipeline keeps 200 lines)" % hidden
